@@ -297,40 +297,7 @@ func checkKeyringMethods(c *Ctx, install *core.Func) {
 			}
 			return e.Detail["arg1"] == "m.keys[0]", "primary argument is " + e.Detail["arg1"]
 		})
-	// the shortened list consists of exactly the elements before and after the matched one
-	ruleR := "RemoveKey hands the install helper the installed list minus exactly the matched element: the only parts of the installed list it copies are keys[:i] and keys[i+1:] for the matched index i"
-	c.Rule(ruleR)
-	srcs := map[string]bool{}
-	ast.Inspect(rem.Decl.Body, func(n ast.Node) bool {
-		rs, ok := n.(*ast.RangeStmt)
-		if !ok || p.FieldOwner(rs.X) != "Keyring.keys" {
-			return true
-		}
-		idx, _ := rs.Key.(*ast.Ident)
-		if idx == nil {
-			return true
-		}
-		ast.Inspect(rs.Body, func(m ast.Node) bool {
-			if sl, ok := m.(*ast.SliceExpr); ok && p.FieldOwner(sl.X) == "Keyring.keys" {
-				lo, hi := "", ""
-				if sl.Low != nil {
-					lo = strings.ReplaceAll(norm(p.Canon(sl.Low)), norm(p.Canon(idx)), "i")
-				}
-				if sl.High != nil {
-					hi = strings.ReplaceAll(norm(p.Canon(sl.High)), norm(p.Canon(idx)), "i")
-				}
-				srcs["["+lo+":"+hi+"]"] = true
-			}
-			return true
-		})
-		return true
-	})
-	okSrc := len(srcs) == 2 && srcs["[:i]"] && srcs["[(i+1):]"]
-	var got []string
-	for k := range srcs {
-		got = append(got, k)
-	}
-	c.Check("C17/remove/exact-element", ruleR, rem.Decl.Pos(), okSrc, "RemoveKey copies keys"+strings.Join(got, " and keys")+" (a key other than the requested one is dropped, or the requested one stays installed)")
+	checkRemoveExact(c)
 
 	// constant indexes into the key list need a length guard
 	rule := "every constant index into the key list is dominated by a length guard (no panic on an empty ring)"
@@ -436,6 +403,48 @@ func checkValidateKey(c *Ctx) {
 			c.Check("C17/validate/error-otherwise", rule, ex.Pos, !valid, "rejects a valid length under {"+gea.CubeString(ex.Cube)+"}")
 		}
 	}
+}
+
+// checkRemoveExact: RemoveKey hands the install helper the installed list
+// minus exactly the matched element (shared with C14: traffic sealed under a
+// removed key must stop being accepted, and no other key may disappear).
+func checkRemoveExact(c *Ctx) {
+	p := c.P
+	rem := c.MustFunc("Keyring.RemoveKey")
+	ruleR := "RemoveKey hands the install helper the installed list minus exactly the matched element: the only parts of the installed list it copies are keys[:i] and keys[i+1:] for the matched index i"
+	c.Rule(ruleR)
+	srcs := map[string]bool{}
+	ast.Inspect(rem.Decl.Body, func(n ast.Node) bool {
+		rs, ok := n.(*ast.RangeStmt)
+		if !ok || p.FieldOwner(rs.X) != "Keyring.keys" {
+			return true
+		}
+		idx, _ := rs.Key.(*ast.Ident)
+		if idx == nil {
+			return true
+		}
+		ast.Inspect(rs.Body, func(m ast.Node) bool {
+			if sl, ok := m.(*ast.SliceExpr); ok && p.FieldOwner(sl.X) == "Keyring.keys" {
+				lo, hi := "", ""
+				if sl.Low != nil {
+					lo = strings.ReplaceAll(norm(p.Canon(sl.Low)), norm(p.Canon(idx)), "i")
+				}
+				if sl.High != nil {
+					hi = strings.ReplaceAll(norm(p.Canon(sl.High)), norm(p.Canon(idx)), "i")
+				}
+				srcs["["+lo+":"+hi+"]"] = true
+			}
+			return true
+		})
+		return true
+	})
+	okSrc := len(srcs) == 2 && srcs["[:i]"] && srcs["[(i+1):]"]
+	var got []string
+	for k := range srcs {
+		got = append(got, k)
+	}
+	c.Check("C17/remove/exact-element", ruleR, rem.Decl.Pos(), okSrc, "RemoveKey copies keys"+strings.Join(got, " and keys")+" (a key other than the requested one is dropped, or the requested one stays installed)")
+
 }
 
 // checkKeyUse: encrypt sites take GetPrimaryKey(), decrypt sites GetKeys(),
